@@ -102,6 +102,13 @@ pub fn run(run: &Run) {
         }
         true
     });
+    collisions(run, "fingerprint_collisions", &|s, l| match check(run, s, l) {
+        Ok(()) => true,
+        Err(v) => {
+            run.violate(v);
+            false
+        }
+    });
     let pl: Vec<&str> = PAYLOADS_SPACE.iter().chain(PAYLOADS_FREE.iter()).copied().collect();
     stress(run, "alignment_and_runs", &pl, &|s, l| {
         if check(run, s, l).is_err() {
